@@ -33,6 +33,22 @@ CLAIMS.update({
                 technique="Coq proof over all schedules of a small-step model + forced-schedule correspondence via build-tag hook + race detector", design="6 C11"),
 })
 
+CLIENT_NOTE = ("Trusted: Coq kernel + VM; the hand-written model Model/AuditClient.v, tied to audit.go by the correspondence run (every generated history is played to the real AuditClient through its exported Netlink field by a simulated kernel; "
+               "results, requests on the wire, socket closes and the number of receives consumed must equal the model's); Spec/Uapi.v (UAPI numbers and struct audit_status layout, hand-written); translator for constants/offsets. No axioms.")
+CLAIMS.update({
+    "C08": dict(text="Proof: for every client state and every kernel script in the property's fault model (predicate answers: unbounded noise of unsolicited records and runs of up to nine transient failures, then the ACK), the Set* commands in WaitForReply mode, AddRule, DeleteRule and GetStatus return nil / the status exactly when errno = 0 and otherwise an error carrying that errno; a foreign sequence number is never success. "
+                     "Partial: GetRules/DeleteRules verdicts are decided on every implementation run by the independent script reading of Check/ChkClient.v and by model agreement, not yet proved.",
+                note=CLIENT_NOTE + " PARTIAL: GetRules / DeleteRules lack a theorem (checked on traces).", technique="Coq proofs over all scripts in the fault model + simulated-kernel correspondence", design="6 C08"),
+    "C16": dict(text="Proof: C16_setters (every setter x every value x both modes x every state: one AUDIT_SET, REQUEST|ACK, full-size UAPI struct with exactly the mask bit and value), C16_from_wire (every buffer: EOF below 32 bytes, else the eleven UAPI words with zero fill, trailing bytes ignored), C16_layout and C16_constants over generated offsets/constants. "
+                     "The failure-mode constants are a known finding (all 0), stated as a two-way disjunction so that a third value fails.",
+                note=CLIENT_NOTE, technique="Coq proofs over generated layout/constants against a hand-written UAPI spec + correspondence", design="6 C16"),
+    "C17": dict(text="Proof: C17_close_at_most_once for every operation sequence, kernel script and fault script; C17_first_close (PID cleared iff SetPID was used, before the socket close); C17_wait_consumes_once_in_order (acknowledged pending requests are consumed once, in order; a second call consumes nothing). "
+                     "Partial: the first-error clause and the copy of rule data are decided on every implementation run (rules are read back after later traffic reused the receive buffer); concurrent Close is a runtime fact supported by close storms.",
+                note=CLIENT_NOTE + " PARTIAL: sync.Once under real concurrency is runtime; first-kernel-error clause checked on traces.", technique="Coq invariant proofs over all operation sequences + simulated-kernel correspondence", design="6 C17"),
+    "C19": dict(text="Proof (partial): C19_closed_is_final (after any Close, Maintain and Close return the error and deliver nothing, for all histories), C19_first_close_succeeds, and flush-on-Close via chk_C01. The timeout clauses (stale event delivered by the first call after its timeout once oldest; never earlier on account of time) are decided on every implementation trace with real sleeps by the observation-level checker and by model agreement; their theorem is not yet proved.",
+                note=REASM_NOTE + " PARTIAL: timeout clauses checked on traces with real time (30 ms timeouts, 70 ms sleeps), not yet proved; time.Now() is bracketed by stamps.", technique="Coq proofs (Close) + trace checker with real sleeps + correspondence", design="6 C19"),
+})
+
 NOT_YET = {}
 
 def main():
